@@ -70,6 +70,7 @@ func (e *Engine) ExportImport() (src, dst []chain.KV, gs *ct.GenesisState, err e
 	e.C = n
 	e.Cfg = cfg
 	e.SumMintReq, e.SumAccepted, e.SumBurnReq, e.SumDeposits = nil, nil, nil, nil // a new ledger baseline starts here
+	e.ModuleHeld = nil
 	dst = e.C.Dump(ct.StoreKey)
 	em, mi, bu, ac := e.M.Emitted, e.M.Minted, e.M.Burned, e.M.AcceptedBurnMsg
 	hadPending, pend := e.M.HasPending, e.M.Pending
